@@ -2,7 +2,7 @@
     The same function is extracted to OCaml (ocaml/modelrun) and can be evaluated inside Coq. *)
 From Coq Require Import Strings.String Strings.Byte.
 From Coq Require Import List Arith NArith ZArith Bool.
-From PV Require Import Base.Bytes Base.Outcome Base.KV Compkey.Model Aol.Model Aol.Query Bank.Model Did.Model Pnft.Model Chain.Model Keystore.Load Driver.Tok.
+From PV Require Import Base.Bytes Base.Base64 Base.Outcome Base.KV Compkey.Model Aol.Model Aol.Query Bank.Model Did.Model Pnft.Model Chain.Model Keystore.Load Driver.Tok.
 From PV Require Generated.GenNft.
 From PV Require Pagination.Model Pnft.Query.
 From PV Require Sign.Model.
@@ -607,6 +607,21 @@ Definition q_cmd0 (st : dstate) (ts : list tok) : list bytes :=
             end
         | None => bad
         end
+      else if tok_is kind "did.DID64" then
+        (* the did_base64 field as the client sent it: refused unless it decodes (base64.StdEncoding.DecodeString) *)
+        match bytes_of_tok did with
+        | Some raw =>
+            match b64_decode raw with
+            | None => [b "Q err 3"]
+            | Some d =>
+                match q_did (c_did (d_chain st)) d with
+                | DFound doc seq => [join_toks [b "Q"; b "ok"; print_dec seq; doc_str doc]]
+                | DNotFound => [b "Q err 5 notfound"]
+                | DDeactivated => [b "Q err 5 deactivated"]
+                end
+            end
+        | None => bad
+        end
       else bad
   | kind :: o :: rest =>
       if tok_is kind "aol.Topics" then
@@ -801,6 +816,21 @@ Definition chain_cmd (st : dstate) (cmd : tok) (args : list tok) : option (dstat
             | _ => Some (st, [b "G panic"])
             end
         | _, _ => Some (st, bad)
+        end
+    | _ => Some (st, bad)
+    end
+  else if tok_is cmd "GD" then
+    (* a DID genesis entry: GD <did key> <document ref | -> <sequence>.  GenesisState.Validate decides entry by entry;
+       InitGenesis stores every entry of a genesis that passed under its key *)
+    match args with
+    | [k; r; n] =>
+        match bytes_of_tok k, docref st r, parse_dec n with
+        | Some did, Some od, Some seq =>
+            let e := {| en_doc := Some (match od with Some d => d | None => empty_doc end); en_seq := seq |} in
+            if validate_did_genesis [(did, e)]
+            then Some (upd_chain st (with_did (d_chain st) (init_did [(did, e)] (c_did (d_chain st)))), [b "GD ok"])
+            else Some (st, [b "GD invalid"])
+        | _, _, _ => Some (st, bad)
         end
     | _ => Some (st, bad)
     end
